@@ -12,8 +12,8 @@ def real_case(draw, tier):
     big = tier == 'thorough'
     desc = draw(gm.mesh(max_cells=40 if big else 20, max_cells_3d=16 if big else 8, order2=True, curved=True))
     kind = gm.mesh_kind(desc)
-    e1 = draw(ge.wrapped(kind))
-    e2 = draw(ge.wrapped(kind)) if draw(st.booleans()) else None
+    e1 = draw(ge.wrapped(kind, costly=big))
+    e2 = draw(ge.wrapped(kind, costly=big)) if draw(st.booleans()) else None
     nc = len(desc['t'][0])
     sub = draw(st.lists(st.integers(0, nc - 1), min_size=1, max_size=nc, unique=True))
     return dict(mesh=desc, elem=e1, elem2=e2, subset=sub)
